@@ -116,21 +116,32 @@ def _evict(keep=24):
         shutil.rmtree(os.path.join(CACHE, d), ignore_errors=True)
 
 
-def load_program(crate='vaporetto', features=None, no_default=False, target='lib', bin_name=None, extra_src_crates=()):
-    """dump + parse + index -> (Program, info dict)"""
+def load_program(crate='vaporetto', features=None, no_default=False, target='lib', bin_name=None, extra=()):
+    """dump + parse + index -> (Program, info dict).  extra: further crates (dicts of dump() kwargs) whose MIR is
+    merged into the same program (e.g. vaporetto_rules calling into vaporetto)."""
     import glob
     from engine import Program
     from srcindex import SourceIndex
     d = dump(crate, features, no_default, target, bin_name)
     si = SourceIndex(d['src_root'], d['features'])
+    mir = d['mir']
+    crates = [crate]
+    secs = d['secs']
+    for kw in extra:
+        d2 = dump(**kw)
+        mir += '\n' + d2['mir']
+        crates.append(kw['crate'])
+        secs += d2['secs']
     files = []
-    for cr in (crate,) + tuple(extra_src_crates):
+    for cr in crates:
         files += [os.path.relpath(p, d['src_root']) for p in glob.glob(os.path.join(d['src_root'], cr, 'src', '**', '*.rs'), recursive=True)]
     si.scan_items(files)
-    prog = Program(d['mir'], si, crate)
-    info = {k: d[k] for k in ('hash', 'secs', 'cached', 'key')}
+    prog = Program(mir, si, crate)
+    info = {k: d[k] for k in ('hash', 'cached', 'key')}
+    info['secs'] = secs
+    info['crates'] = crates
     info['features'] = sorted(d['features'])
-    info['mir_lines'] = d['mir'].count('\n')
+    info['mir_lines'] = mir.count('\n')
     info['fns'] = len(prog.fns)
     info['stmts'] = prog.nstmts
     return prog, info
